@@ -33,14 +33,8 @@ theorem J_decInit (buf : List Nat) (n : Nat) : J (decInit buf n) := by
   dsimp only
   apply J_norm
   · dsimp only; exact sub32_lt _ _
-  · have : (readByte { buf := buf, storage := n, endOffs := 0, endWindow := 0, nendBits := 0, nbitsTotal := 9,
-        offs := 0, rng := 128, val := 0, ext := 0, rem := 0, error := 0 }).2.rng = 128 := by
-      rw [readByte_rng]
-    dsimp only; rw [this]; omega
-  · have : (readByte { buf := buf, storage := n, endOffs := 0, endWindow := 0, nendBits := 0, nbitsTotal := 9,
-        offs := 0, rng := 128, val := 0, ext := 0, rem := 0, error := 0 }).2.rng = 128 := by
-      rw [readByte_rng]
-    dsimp only; rw [this]; omega
+  · dsimp only; rw [readByte_rng]; show 0 < 128; omega
+  · dsimp only; rw [readByte_rng]; show 128 ≤ 2147483648; omega
 
 /-! ### ec_dec_bit_logp -/
 
@@ -101,9 +95,7 @@ def Decr : List Nat → Prop
 
 theorem chain_of_decr (r : Nat) (hr : 1 ≤ r) : ∀ (xs : List Nat) (x0 : Nat), Decr (x0 :: xs) → Chain r (r * x0) xs
   | [], _, _ => trivial
-  | x :: xs, x0, h => by
-    refine ⟨Nat.mul_lt_mul_of_lt_of_le (Nat.le_refl r) h.1 (by omega) |> fun h' => by
-      simpa [Nat.mul_comm] using Nat.mul_lt_mul_of_pos_left h.1 (by omega : 0 < r), chain_of_decr r hr xs x h.2⟩
+  | x :: xs, x0, h => ⟨Nat.mul_lt_mul_of_pos_left h.1 (by omega), chain_of_decr r hr xs x h.2⟩
 
 /-- A table usable with `ftb` bits: non-empty, first entry below `2^ftb`, strictly decreasing. -/
 def TblOk (ftb : Nat) (tbl : List Nat) : Prop :=
@@ -133,6 +125,8 @@ theorem J_icdf (c : Dec) (hj : J c) (tbl : List Nat) (ftb : Nat) (hf : ftb ≤ 8
   unfold decIcdf
   dsimp only
   generalize decIcdfLoop (c.rng / 2 ^ ftb) c.val tbl c.rng 0 = y at hinv
+  obtain ⟨ret, t, s⟩ := y
+  dsimp only at hinv ⊢
   apply J_norm
   · dsimp only; exact sub32_lt _ _
   · dsimp only; rw [sub32_of_le (by omega) (by omega)]; omega
@@ -152,7 +146,9 @@ theorem decode_lt (c : Dec) (hj : J c) (ft : Nat) (h1 : 1 ≤ ft) (h2 : ft ≤ 3
   have hq : c.val / (c.rng / ft) < 16777216 := (Nat.div_lt_iff_lt_mul (by omega)).2 (by
     have : 16777216 * 256 ≤ 16777216 * (c.rng / ft) := Nat.mul_le_mul_left _ hext
     omega)
-  rw [u32_of_lt (by omega), u32_of_lt (by omega)]
+  have e1 : u32 (c.val / (c.rng / ft)) = c.val / (c.rng / ft) := u32_of_lt (by omega)
+  have e2 : u32 (c.val / (c.rng / ft) + 1) = c.val / (c.rng / ft) + 1 := u32_of_lt (by omega)
+  rw [e1, e2]
   refine ⟨?_, rfl⟩
   unfold mini
   split
@@ -176,17 +172,18 @@ theorem J_update (c : Dec) (hj : J c) (ft fl fh : Nat) (h1 : 1 ≤ ft) (h2 : ft 
   have hD : c.rng / ft * (ft - fh) + c.rng / ft * fh = c.rng / ft * ft := by
     rw [← Nat.mul_add]; congr 1; omega
   have hE : c.rng / ft * 1 ≤ c.rng / ft * fh := Nat.mul_le_mul_left _ (by omega)
+  have e1 : sub32 ft fh = ft - fh := sub32_of_le (by omega) hh
+  have e2 : mul32 (c.rng / ft) (ft - fh) = c.rng / ft * (ft - fh) := mul32_of_lt (by omega)
+  have e3 : sub32 fh fl = fh - fl := sub32_of_le (by omega) (by omega)
+  have e4 : mul32 (c.rng / ft) (fh - fl) = c.rng / ft * (fh - fl) := mul32_of_lt (by omega)
+  have e5 : sub32 c.rng (c.rng / ft * (ft - fh)) = c.rng - c.rng / ft * (ft - fh) := sub32_of_le (by omega) (by omega)
   unfold decUpdate
   dsimp only
-  rw [sub32_of_le (by omega : ft < 4294967296) hh, mul32_of_lt (by omega)]
+  rw [e1, e2, e3, e4, e5]
   apply J_norm
   · dsimp only; exact sub32_lt _ _
-  · dsimp only; split
-    · rw [sub32_of_le (by omega) (by omega), mul32_of_lt (by omega)]; omega
-    · rw [sub32_of_le (by omega) (by omega)]; omega
-  · dsimp only; split
-    · rw [sub32_of_le (by omega) (by omega), mul32_of_lt (by omega)]; omega
-    · rw [sub32_of_le (by omega) (by omega)]; omega
+  · dsimp only; split <;> omega
+  · dsimp only; split <;> omega
 
 /-- `ec_dec_uint(ft)` for `2 ≤ ft ≤ 256` (no raw-bit part): value below `ft`, `J` preserved. -/
 theorem J_uint (c : Dec) (hj : J c) (ft : Nat) (h1 : 2 ≤ ft) (h2 : ft ≤ 256) :
@@ -209,16 +206,29 @@ theorem J_uint (c : Dec) (hj : J c) (ft : Nat) (h1 : 2 ≤ ft) (h2 : ft ≤ 256)
 theorem readByteFromEnd_vr (c : Dec) : (readByteFromEnd c).2.val = c.val ∧ (readByteFromEnd c).2.rng = c.rng := by
   unfold readByteFromEnd; split <;> exact ⟨rfl, rfl⟩
 
-theorem decBitsFill_vr (c : Dec) (w a : Nat) : (decBitsFill c w a).1.val = c.val ∧ (decBitsFill c w a).1.rng = c.rng := by
-  fun_induction decBitsFill c w a with
-  | case1 c w a b c1 hb w' h ih =>
-    have := readByteFromEnd_vr c
-    rw [hb] at this
-    exact ⟨ih.1.trans this.1, ih.2.trans this.2⟩
-  | case2 c w a b c1 hb w' h =>
-    have := readByteFromEnd_vr c
-    rw [hb] at this
-    exact this
+theorem decBitsFill_vr_aux : ∀ (n : Nat) (c : Dec) (w a : Nat), 32 - a ≤ n →
+    (decBitsFill c w a).1.val = c.val ∧ (decBitsFill c w a).1.rng = c.rng
+  | 0, c, w, a, hn => by
+    rw [decBitsFill]
+    have hr := readByteFromEnd_vr c
+    generalize readByteFromEnd c = y at hr
+    obtain ⟨b, c1⟩ := y
+    dsimp only at hr ⊢
+    rw [dif_neg (by omega)]
+    exact hr
+  | n + 1, c, w, a, hn => by
+    rw [decBitsFill]
+    have hr := readByteFromEnd_vr c
+    generalize readByteFromEnd c = y at hr
+    obtain ⟨b, c1⟩ := y
+    dsimp only at hr ⊢
+    split
+    · have ih := decBitsFill_vr_aux n c1 (w ||| u32 (b <<< a)) (a + 8) (by omega)
+      exact ⟨ih.1.trans hr.1, ih.2.trans hr.2⟩
+    · exact hr
+
+theorem decBitsFill_vr (c : Dec) (w a : Nat) : (decBitsFill c w a).1.val = c.val ∧ (decBitsFill c w a).1.rng = c.rng :=
+  decBitsFill_vr_aux (32 - a) c w a (Nat.le_refl _)
 
 theorem J_bits (c : Dec) (hj : J c) (n : Nat) : J (decBits c n).2 ∧ (decBits c n).1 < 2 ^ n := by
   unfold decBits
